@@ -263,8 +263,9 @@ class PipelineModule:
         return gen.maybe_respelled(base, 4)
 
     def strategy(self, spec):
-        return pipeline_case(self._rx(spec), self.min_rx, self.max_rx, n_jobs_choices=tuple(spec.get("n_jobs", (1,))),
-                             threshold=self.thresholds)
+        return pipeline_case(self._rx(spec), spec.get("min_rx", self.min_rx), spec.get("max_rx", self.max_rx),
+                             n_jobs_choices=tuple(spec.get("n_jobs", (1,))), threshold=self.thresholds,
+                             batch=spec.get("batch", True))
 
     def check_case(self, case, spec=None):
         res = CaseResult()
@@ -307,8 +308,14 @@ class PipelineModule:
         for i in range(n_hyp if q else 12):
             out.append({"name": "hyp:%d" % i, "kind": "hyp", "examples": examples if q else thorough_examples})
         if njobs:
-            out.append({"name": "hyp-njobs", "kind": "hyp", "examples": max(20, examples // 3) if q else 300,
-                        "n_jobs": (2, 4, 16), "procs": 4})
+            # worker pools: batches larger than the worker count (2-4 workers, 5-12 reactions, mostly one batch) and
+            # a wide pool (16 workers)
+            for i in range(2):
+                out.append({"name": "hyp-njobs:%d" % i, "kind": "hyp", "examples": max(20, examples // 3) if q else 300,
+                            "n_jobs": (2, 3, 4), "min_rx": 5, "max_rx": 12, "batch": i == 1, "procs": 4,
+                            "weights": (3, 6, 2, 1)})
+            out.append({"name": "hyp-njobs-wide", "kind": "hyp", "examples": max(10, examples // 6) if q else 150,
+                        "n_jobs": (16,), "min_rx": 3, "max_rx": 8, "procs": 4})
         if mcs_heavy:
             out.append({"name": "hyp-mcs-heavy", "kind": "hyp", "examples": max(30, (examples * 2) // 3) if q else 800,
                         "weights": (8, 2, 0, 0), "max_heavy": 40})
